@@ -173,6 +173,21 @@ Theorem C11_offline_open_at : forall isz cur nc t fs ns0,
 Proof. exact open_at_offline. Qed.
 Print Assumptions C11_offline_open_at.
 
+(* 13. The hypothesis `ns_meta (Some t) fs = NsOk ns0` of theorems 3, 6, 11, 12 is no restriction in
+   practice: any finite fileTimeSecs up to 2^100 seconds converts (the product cannot overflow). *)
+Theorem C11_meta_duration_convertible : forall t fs,
+  is_finite t = true -> fs_ok fs -> (Rabs (B2R t) <= bpow radix2 100)%R ->
+  exists n, ns_meta (Some t) fs = NsOk n.
+Proof. exact ns_meta_total. Qed.
+Print Assumptions C11_meta_duration_convertible.
+
+(* 14. Boundary outside the property's quantifier, stated exactly: an empty file never opens
+   (np.memmap refuses to map an empty file), for either class and any metadata. *)
+Theorem C11_empty_file_never_opens : forall online isz nc fts fs ns nc' f rw,
+  open_bin online isz 0 nc fts fs <> Opened ns nc' f rw.
+Proof. exact empty_file_never_opens. Qed.
+Print Assumptions C11_empty_file_never_opens.
+
 (* ---- the hypotheses are satisfiable on concrete, non-trivial inputs ---- *)
 Local Open Scope R_scope.
 Example fs_ok_30000 : fs_ok (of_me 30000 0).
@@ -229,4 +244,36 @@ Proof. vm_compute. reflexivity. Qed.
 (* dtype='int32' (item size 4), 3 channels, 5 frames + 7 bytes, meta claiming 9 frames, OnlineReader and Reader *)
 Example ex_int32_online : run [0; 1; 1; 4; 12 * 5 + 7; 3; 30000; 0; 0; 0; 0]
                           = [0; 5; 3; 0; 3; 0; 6148914691236517; -65; 3; 0; 6148914691236517; -65].
+Proof. vm_compute. reflexivity. Qed.
+
+(* hypotheses of the history theorems (10, 11) on the concrete histories evaluated above *)
+Example ex_history_online_hyps :
+  isz_ok 2 /\ 1 <= 5 /\ 2 * 5 < 2 ^ 53 /\ size_ok true 2 5 34 /\
+  Forall (op_ok true 2 5) [OpResize 259; OpOpen; OpResize 400; OpEnter; OpOpen].
+Proof.
+  unfold isz_ok. cbn [size_ok]. repeat split; try lia; auto.
+  repeat constructor; cbn [op_ok size_ok]; lia.
+Qed.
+Example ex_history_offline_hyps :
+  ns_meta (Some (of_me 7378697629483821 (-66))) (of_me 30000 0) = NsOk 3 /\
+  size_ok false 2 5 30 /\ Forall (op_ok false 2 5) [OpResize 100; OpOpen].
+Proof.
+  split; [vm_compute; reflexivity|]. split; [cbn [size_ok]; split; [lia|vm_compute; discriminate]|].
+  repeat constructor; cbn [op_ok size_ok]; try lia. vm_compute. discriminate.
+Qed.
+(* theorem 13 on the duration 1.8331333... s: finite and below 2^100 *)
+Example ex_duration_convertible :
+  is_finite (of_me 8255698596920435 (-52)) = true /\
+  (Rabs (B2R (of_me 8255698596920435 (-52))) <= bpow radix2 100)%R.
+Proof.
+  destruct (of_me_correct 8255698596920435 (-52) ltac:(reflexivity) ltac:(lia)) as [-> ->].
+  split; [reflexivity|].
+  change (bpow radix2 (-52)) with (/ 4503599627370496)%R.
+  apply Rle_trans with 2%R.
+  - rewrite Rabs_pos_eq; lra.
+  - change 2%R with (bpow radix2 1). apply bpow_le. lia.
+Qed.
+(* theorem 6: .cbin chopped to 10 frames, meta announcing 33 frames at 2500 Hz, ignore_warnings *)
+Example ex_cbin_short : run [1; 1; 10; 8; 8; 2500; 0; 1; 7609281930405190; -59]
+                        = [0; 10; 8; 0; 3; 0; 4611686018427388; -60; 3; 0; 4611686018427388; -60].
 Proof. vm_compute. reflexivity. Qed.
